@@ -533,6 +533,7 @@ class Env:
         for f in cs.faults:
             if f.get("site") == "cancel" and f.get("at") == k:
                 self.fired("cancel_at_await")
+                cs.cancel_injected = True
                 frac = f.get("frac", 0)
                 us = cs.pending_us or 0
                 delay = (us * frac // 100) if (us > 0 and frac) else 0
@@ -745,12 +746,19 @@ class Env:
         parts = step.get("parts", 1)
         dur = step.get("dur", 0)
         t_start = self.clock.mono_us
+        lp = getattr(self, "loop", None)
+        l_start = lp.time() if lp is not None else None
         try:
             for i in range(parts):
                 await self.pause(dur // parts if i else dur - (dur // parts) * (parts - 1), f"op{k}")
         except asyncio.CancelledError:
             T = self.cfg.get("attempt_timeout_us")
-            if self.cfg.get("timeouts_fire") and T and self.clock.mono_us - t_start == T:
+            # wait_for gave up on this attempt: either a scenario whose timeouts are meant to fire, or -- in a scenario
+            # whose operations are all shorter than the timeout -- another task blocked the loop past this attempt's
+            # timeout (e.g. a synchronous sleeper in async code); a cancellation injected by the scenario is not one
+            late = (T and l_start is not None and not getattr(cs, "cancel_injected", False)
+                    and int(round((lp.time() - l_start) * 1e6)) >= T)
+            if (self.cfg.get("timeouts_fire") and T and self.clock.mono_us - t_start == T) or (late and not self.cfg.get("timeouts_fire")):
                 self.fired("attempt_timeout")     # asyncio.wait_for gave up on this attempt
                 self.ev("OP_END", k=k, kind="timeout", obj="?TimeoutError", cls=self.cfg.get("timeout_cls", "TRANSIENT"))
             raise
